@@ -550,7 +550,17 @@ func (p *pathRun) assert(fr *frame, label string, cond *smt.Term) {
 		// the solver could not decide the non-linear query: look for a counterexample with
 		// most integer inputs pinned (the remaining query is easy); a hit is a genuine model
 		// of the same constraints and is replayed natively like any other
-		if m2, ok := p.searchModel(p.ctx.Not(cond)); ok {
+		if rs, ms := p.sliceQuery(p.ctx.Not(cond), p.eng.VerdictMs); rs == smt.Unsat {
+			// unsat on a subset of the path condition (the conjuncts sharing variables with the goal)
+			ob.Status = "discharged"
+			ob.Diag = "unsat on the goal's variable slice of the path condition"
+			r = smt.Unsat
+		} else if rs == smt.Sat {
+			ob.Status = "violated"
+			ob.Diag += "; counterexample candidate from the goal's variable slice (validated by native replay only)"
+			ob.Model = p.modelStrings(ms)
+			r = smt.Sat
+		} else if m2, ok := p.searchModel(p.ctx.Not(cond)); ok {
 			ob.Status = "violated"
 			ob.Diag += "; counterexample found after partial concretisation"
 			ob.Model = p.modelStrings(m2)
